@@ -39,6 +39,7 @@ struct xaddr {
 	const char *pat;	/* XA_FWD / XA_BWD: literal text */
 	int has_off, bare_off;	/* offset present; bare '+' or '-' (no digits) */
 	int off;		/* signed offset */
+	int has_off2, bare_off2, off2;	/* a second offset following the first (offsets add up) */
 };
 
 enum { XC_A, XC_I, XC_C, XC_D, XC_Y, XC_PU, XC_R, XC_P, XC_EQ, XC_K, XC_RS, XC_AT, XC_FILT, XC_NULL, XC_S, XC_G };
@@ -71,6 +72,12 @@ static int xaddr_print(const struct xaddr *a, char *b)
 			o += sprintf(b + o, "%c", a->off < 0 ? '-' : '+');
 		else
 			o += sprintf(b + o, "%c%d", a->off < 0 ? '-' : '+', abs(a->off));
+	}
+	if (a->has_off2) {
+		if (a->bare_off2)
+			o += sprintf(b + o, "%c", a->off2 < 0 ? '-' : '+');
+		else
+			o += sprintf(b + o, "%c%d", a->off2 < 0 ? '-' : '+', abs(a->off2));
 	}
 	b[o] = '\0';
 	return o;
@@ -189,6 +196,8 @@ static int xm_addr(const struct xm *m, const struct xaddr *a, int cur)
 	}
 	if (a->has_off)
 		n += a->off;
+	if (a->has_off2)
+		n += a->off2;
 	return n;
 }
 
